@@ -15,18 +15,21 @@ Theorem C19_stream_codec_values :
 Proof. exact stream_codec_values. Qed.
 Print Assumptions C19_stream_codec_values.
 
-(* A late error reaches the client exactly when control frames are enabled and
-   the format has them; otherwise it is dropped (known finding F-C19-1). *)
+(* A late error is never lost: it arrives in-band, or else it is on the query
+   status endpoint. *)
+Theorem C19_late_error_reported :
+  forall ctrl fmtc stats bs late, reported ctrl fmtc stats bs late = late.
+Proof. exact late_error_reported. Qed.
+Print Assumptions C19_late_error_reported.
+
+(* In-band delivery alone needs control frames: the error is in the response
+   stream exactly when control frames are enabled and the format has them. *)
 Theorem C19_late_error_needs_ctrl :
   forall ctrl fmtc stats bs e,
     snd (client (server ctrl fmtc stats bs (Some e))) = Some e <-> ctrl && fmtc = true.
 Proof. exact late_error_needs_ctrl. Qed.
 Print Assumptions C19_late_error_needs_ctrl.
 
-Theorem C19_late_error_dropped_refuted :
-  exists ctrl fmtc stats bs e, client (server ctrl fmtc stats bs (Some e)) = (List.concat bs, None).
-Proof. exact late_error_dropped_refuted. Qed.
-Print Assumptions C19_late_error_dropped_refuted.
 
 (* Every other endpoint: the remote path is  decode . handler . decode . encode ;
    when the codecs round-trip (hypotheses, exercised by the harness), any history
